@@ -615,7 +615,7 @@ fn columns(l: &str) -> Vec<char> {
 pub fn bnd_tables() {
     let (ntab, maxw) = if thorough() { (2500u32, 50usize) } else { (500u32, 30usize) };
     let mut rep = Report::new("bnd_tables", &format!("{} seeded regular tables (1..3 rows plus filler rows, 1..3 columns, colspan 2 tiling the grid, cells empty/short/two words/long/wide characters/two lines/many words, \
-        one level of nested tables, rows optionally grouped in thead (th cells) / tbody / tfoot, columns may be empty in every row unless a multi-column cell with other columns spans them; 4 fixed tables with empty multi-column cells over all-empty columns 4 with a long multi-column cell over short cells, 2 with 6 and 8 columns), widths 1..={}; plain decorator with borders: \
+        one level of nested tables, every fifth table inside a quote or a list item, rows optionally grouped in thead (th cells) / tbody / tfoot, columns may be empty in every row unless a multi-column cell with other columns spans them; 4 fixed tables with empty multi-column cells over all-empty columns 4 with a long multi-column cell over short cells, 2 with 6 and 8 columns), widths 1..={}; plain decorator with borders: \
         no panic; lines within the width (C02); the non-space characters of all cells are exactly the non-border characters of the output (C03, C06); \
         side-by-side layout: equal line widths, first and last line are rules, every rule character matches the bars directly above and below it (C05); \
         allowing width overflow does not change a rendering that succeeds (C11)", ntab, maxw));
@@ -635,13 +635,23 @@ pub fn bnd_tables() {
         "<table><tr><td>aa bb cc</td><td>dd</td><td>ee ff gg hh</td><td>ii</td><td>jj kk</td><td>ll</td><td>mm nn oo</td><td>pp</td></tr></table>"];
     for ti in 0..ntab as usize + extras.len() {
         let mut tok = 0;
-        let html = if ti < extras.len() { extras[ti].to_string() } else { gen_table(&mut r, 0, &mut tok) };
-        let want = content_chars(&html);
+        let html0 = if ti < extras.len() { extras[ti].to_string() } else { gen_table(&mut r, 0, &mut tok) };
+        let want = content_chars(&html0);
+        // every fifth table sits in a quote or a list item: the same table, two columns to the right
+        let (html, pfx1, pfxn): (String, &str, &str) = match ti % 10 { 3 => (format!("<blockquote>{}</blockquote>", html0), "> ", "> "), 8 => (format!("<ul><li>{}</li></ul>", html0), "* ", "  "), _ => (html0.clone(), "", "") };
         for w in 1..=maxw {
             let input = format!("width={} html={}", w, html);
             rep.case(&input);
             let h = html.clone();
-            let out = match panic::catch_unwind(move || config::plain().string_from_read(h.as_bytes(), w)) { Ok(Ok(s)) => s, Ok(Err(_)) => continue, Err(_) => { rep.found(&input, "panic"); continue; } };
+            let out0 = match panic::catch_unwind(move || config::plain().string_from_read(h.as_bytes(), w)) { Ok(Ok(s)) => s, Ok(Err(_)) => continue, Err(_) => { rep.found(&input, "panic"); continue; } };
+            if let Some(l) = out0.lines().find(|l| columns(l).len() > w) { rep.found(&input, &format!("line {:?} is {} columns wide", l, columns(l).len())); continue; }
+            // strip the block prefix; the table itself is checked at width - 2
+            let out: String = if pfx1.is_empty() { out0.clone() } else {
+                let mut o = String::new(); let mut bad = false;
+                for (i, l) in out0.lines().enumerate() { let p = if i == 0 { pfx1 } else { pfxn }; if let Some(x) = l.strip_prefix(p) { o.push_str(x); } else if l.trim_end() == p.trim_end() { } else { bad = true; } o.push('\n'); }
+                if bad { rep.found(&input, &format!("a line of the prefixed block does not start with its prefix; output {:?}", out0)); continue; }
+                o };
+            let w = if pfx1.is_empty() { w } else { w.saturating_sub(2) };
             let lines: Vec<&str> = out.lines().collect();
             let cols: Vec<Vec<char>> = lines.iter().map(|l| columns(l)).collect();
             if let Some(l) = cols.iter().position(|c| c.len() > w) { rep.found(&input, &format!("line {:?} is {} columns wide", lines[l], cols[l].len())); continue; }
@@ -650,10 +660,11 @@ pub fn bnd_tables() {
             if got != want { rep.found(&input, &format!("cell characters {:?} but output characters {:?}; output {:?}", want.iter().collect::<String>(), got.iter().collect::<String>(), out)); continue; }
             {
                 let h2 = html.clone();
-                match panic::catch_unwind(move || config::plain().allow_width_overflow().string_from_read(h2.as_bytes(), w)) {
+                let wo = if pfx1.is_empty() { w } else { w + 2 };
+                match panic::catch_unwind(move || config::plain().allow_width_overflow().string_from_read(h2.as_bytes(), wo)) {
                     Err(_) => { rep.found(&input, "panic (allow_width_overflow)"); continue; }
                     Ok(Err(e)) => { rep.found(&input, &format!("error {:?} although width overflow is allowed", e)); continue; }
-                    Ok(Ok(o)) => if o != out { rep.found(&input, &format!("allow_width_overflow changed a rendering that succeeds: {:?} vs {:?}", out, o)); continue; },
+                    Ok(Ok(o)) => if o != out0 { rep.found(&input, &format!("allow_width_overflow changed a rendering that succeeds: {:?} vs {:?}", out0, o)); continue; },
                 }
             }
             if out.contains('/') || lines.is_empty() { continue; }     // stacked layout
